@@ -321,7 +321,8 @@ static void gen_value(int depth, int budget)
 				putc_(',');
 			}
 			ws();
-			if (vh_below(5) == 0)
+			int isdup = vh_below(5) == 0;
+			if (isdup)
 			{
 				tok_add(TK_KEY, TL, TL + 5, TL + 2);
 				puts_("\"dup\""); /* duplicate member names */
@@ -331,7 +332,25 @@ static void gen_value(int depth, int budget)
 			ws();
 			tok_add(TK_PUNCT, TL, TL + 1, 0);
 			putc_(':');
-			gen_value(depth - 1, budget / (n ? n : 1));
+			if (isdup && vh_below(2))
+			{
+				/* repeated names often carry the SAME small value again (null over null, 0 over 0, ...) */
+				static const char *small[] = {"null", "null", "false", "0", "\"\"", "[]", "{}"};
+				static const int kind[] = {TK_LIT, TK_LIT, TK_LIT, TK_INT, TK_STR, -1, -1};
+				int w = (int)vh_below(7);
+				ws();
+				if (kind[w] >= 0)
+					tok_add(kind[w], TL, TL + (int)strlen(small[w]), kind[w] == TK_STR ? -1 : 0);
+				else
+				{
+					tok_add(TK_OPEN, TL, TL + 1, 0);
+					tok_add(TK_CLOSE_EMPTY, TL + 1, TL + 2, 0);
+				}
+				puts_(small[w]);
+				ws();
+			}
+			else
+				gen_value(depth - 1, budget / (n ? n : 1));
 		}
 		ws();
 		tok_add(n ? TK_CLOSE_NONEMPTY : TK_CLOSE_EMPTY, TL, TL + 1, 0);
@@ -418,6 +437,91 @@ static void splits_of_text(int fl, int depth, int exhaustive_limit)
 	}
 }
 
+/* a document with ONE token longer than the parser's scratch buffer starts out (32 bytes, doubling): a string / member
+ * name / number / comment of a length around 32, 64, 128, 256, whose first bytes are of every interesting kind
+ * (an escaped NUL first, an escape, a multi-byte character, plain) - the buffer grows in the middle of the token */
+static void gen_long_token(int validonly)
+{
+	static const int lens[] = {28, 30, 31, 32, 33, 34, 40, 62, 63, 64, 65, 66, 100, 126, 127, 128, 129, 200, 255, 256, 257};
+	static const char *firsts[] = {"\\u0000", "\\u0000\\u0000", "\\n", "\\\\", "\xc3\xa9", "\xf0\x9f\x98\x80", "a", "\\u00e9", "\\ud83d\\ude00", " "};
+	int L = lens[vh_below(sizeof lens / sizeof *lens)];
+	int kind = (int)vh_below(5);
+	if (validonly && kind == 3)
+		kind = 0;
+	TL = 0;
+	ntok = 0;
+	int wrap = (int)vh_below(3);
+	if (wrap == 0)
+		puts_("[");
+	else if (wrap == 1)
+		puts_(kind == 1 ? "{" : "{\"k\": ");
+	switch (kind)
+	{
+	case 0: /* string value */
+	case 1: /* member name (wrap 1) or string */
+	{
+		putc_('"');
+		puts_(firsts[vh_below(sizeof firsts / sizeof *firsts)]);
+		for (int i = 0; i < L; i++)
+		{
+			uint32_t r = vh_below(24);
+			if (r == 0)
+				puts_("\\u0000");
+			else if (r == 1)
+				puts_("\\t");
+			else if (r == 2)
+				puts_("\xe2\x82\xac");
+			else
+				putc_("abcdefghijklmnopqrstuvwxyzABCDEFGHIJ 0123456789"[vh_below(47)]);
+		}
+		putc_('"');
+		if (wrap == 1 && kind == 1)
+			puts_(":1");
+		break;
+	}
+	case 2: /* long integer / fraction / exponent digits */
+		if (vh_below(2))
+			putc_('-');
+		putc_('1' + (int)vh_below(9));
+		for (int i = 0; i < L; i++)
+			putc_('0' + (int)vh_below(10));
+		if (vh_below(2))
+		{
+			putc_('.');
+			for (int i = 0; i < L / 2 + 1; i++)
+				putc_('0' + (int)vh_below(10));
+		}
+		if (vh_below(3) == 0)
+			puts_("e-12");
+		break;
+	case 3: /* long comment before a value (ignored in strict mode: an error there, which must not depend on the split either) */
+		puts_(vh_below(2) ? "/*" : "//");
+		{
+			int block = T[TL - 1] == '*';
+			for (int i = 0; i < L; i++)
+			{
+				char ch = "abc *x/ \"{["[vh_below(11)];
+				if (ch == '/' && block && T[TL - 1] == '*')
+					ch = ' ';
+				putc_(ch);
+			}
+			puts_(block ? "*/" : "\n");
+		}
+		puts_("7");
+		break;
+	default: /* long run of white space, then a literal */
+		for (int i = 0; i < L; i++)
+			putc_(" \t\n\r"[vh_below(4)]);
+		puts_("true");
+		break;
+	}
+	if (wrap == 0)
+		puts_(", 7]");
+	else if (wrap == 1)
+		puts_("}");
+	if (!validonly && vh_below(2))
+		putc_(0);
+}
 static int split_drive(int start, int nexec)
 {
 	const char *seed = getenv("VERIF_SEED");
@@ -439,6 +543,12 @@ static int split_drive(int start, int nexec)
 		}
 		else
 		{
+			if (x % 4 == 3)
+			{
+				gen_long_token(0);
+				splits_of_text(fl, 32, 400);
+				continue;
+			}
 			gen_doc(2 + (int)vh_below(4), 4 + (int)vh_below(20));
 			uint32_t r = vh_below(10);
 			if (r < 4)
@@ -1088,7 +1198,10 @@ static int valid_drive(int start, int nexec)
 		ev_begin("new");
 		ev_end();
 		int deep = vh_below(8) == 0;
-		gen_doc(deep ? 20 + (int)vh_below(11) : 2 + (int)vh_below(5), deep ? 60 : 4 + (int)vh_below(40));
+		if (x % 6 == 5)
+			gen_long_token(1); /* one token longer than the scratch buffer's first sizes */
+		else
+			gen_doc(deep ? 20 + (int)vh_below(11) : 2 + (int)vh_below(5), deep ? 60 : 4 + (int)vh_below(40));
 		record_parse("parse", 0, 32, NULL, 0);
 		record_parse("parse", 1, 32, NULL, 0);
 	}
